@@ -71,7 +71,7 @@ def candidates(case, limit=240):
     return out[:limit]
 
 
-def shrink(prop, case, strip_meta, rounds=6):
+def shrink(prop, case, strip_meta, rounds=14):
     """returns (smaller_case, its harness result, its oracle description) or None when nothing smaller fails"""
     best = None
     cur = case
